@@ -4,11 +4,11 @@
 package main
 
 import (
-	"runtime"
 	"context"
 	"encoding/binary"
 	"errors"
 	"fmt"
+	"runtime"
 	"strings"
 	"sync"
 	"sync/atomic"
@@ -356,7 +356,6 @@ func concurrent(c *harness.Ctx) {
 		})
 	}
 }
-
 
 // cleanRace: block events for fresh roots arrive while a clean is scanning a large map of stale entries; every
 // fresh entry is inside the retention window and must still be cached afterwards (the provider fails every fetch,
